@@ -15,6 +15,7 @@ from mc.ref.metrics import as_tuple, ref_aggregates
 PROPERTY = "C18"
 LEVEL = "model_checking"
 CHUNK = 2
+NONDETERMINISM_IS_VIOLATION = True  # "identical across runs with the same integer random_state" is part of the statement
 RULE = ("layer A (real generator): every multiset of n rows over 3 binary features x 3 layouts (1 sensitive / 2 sensitive / "
         "1 sensitive + 1 control) x {bare callable, dict of 5 metrics} x configurations at deviation distance <=1 from "
         "(n_boot=10, quantiles=[0.1,0.9], seed=0): n_boot in {1,2,3}, 4 other quantile lists (incl. unsorted), other integer "
@@ -46,6 +47,8 @@ def cases(tier, seed):
                 continue  # quick: n=3 only up to relabelling of each binary feature (first row all-zero)
             for lay in LAYOUTS:
                 yield {"kind": "A", "assign": list(ms), "layout": lay, "tier": tier, "seed": seed}
+    for n in (5, 6, 7, 10):  # resample size: round(frac*n) differs from n only for larger n
+        yield {"kind": "A", "assign": [(3 * i) % 8 for i in range(n)], "layout": "s1", "tier": tier, "seed": seed, "only_default": True}
     # layer B datasets: fixed small set of assignments exercising empty intersections / single groups
     nb1 = [2, 3] if tier == "quick" else [2, 3, 4]
     nb2 = [2] if tier == "quick" else [2, 3]
@@ -204,7 +207,7 @@ def _run_a(case):
         out["classes"].add("control_feature")
     outcome = []
     for form in ("callable", "dict"):
-        for cfg in _configs(tier, case["seed"]):
+        for cfg in (_configs(tier, case["seed"])[:2] if case.get("only_default") else _configs(tier, case["seed"])):
             qs = cfg["qs"]
             sd = cfg["seed"]
             if qs == [0.9, 0.1]:
